@@ -20,6 +20,19 @@ def _tol(batches, beta=1.0):
     return 1e-9 + 256 * EPS * (m + z)
 
 
+def _tol_reduce(lw_ref):
+    """Rounding allowance for any floating-point reduction of N log-weights in the log domain (normaliser, log-evidence).
+
+    A sequential log-sum-exp of N terms performs N-1 additions whose partial results are bounded by max|logw| + log N; each
+    rounds by at most half an ulp of that, so the result is off by at most (N/2) eps (max|logw| + log N).  Twice that bound
+    is allowed.  It is computed from the *reference* log-weights, and it is negligible (< 1e-9) unless N exceeds ~1e5.
+    """
+    n = len(lw_ref)
+    if n == 0:
+        return 0.0
+    return n * EPS * (float(np.max(np.abs(lw_ref))) + math.log(n))
+
+
 # ------------------------------------------------------------------------------------ C05
 class ScheduleMon(Monitor):
     def __init__(self, prop="C05"):
@@ -162,6 +175,8 @@ class WeightsMon(Monitor):
             self.n_checks += 1
             tol = _tol(batches) * 10
             lw_ref, lz_ref, lwn_ref = refmis.mis(batches, beta)
+            # tol: per-sample quantities (a reduction over the T iterations only); tol_n: quantities behind a reduction over all N samples
+            tol_n = tol + _tol_reduce(lw_ref)
             lwn, lz = st.compute_logw_and_logz(beta)
             lwu, lz2 = st.compute_logw_and_logz(beta, normalize=False)
             if not np.all(np.isfinite(lwn)) or not math.isfinite(lz):
@@ -169,12 +184,13 @@ class WeightsMon(Monitor):
                 continue
             e1 = float(np.max(np.abs(lwn - lwn_ref.astype(float))))
             e2 = float(np.max(np.abs(lwu - lw_ref.astype(float))))
-            if e1 > tol or e2 > tol:
+            if e1 > tol_n or e2 > tol:
                 w.violation(self.prop, "formula.logw", f"log-weights differ from the balance-heuristic formula at beta={beta}: max|d|={max(e1, e2):.3e} (T={T}, sizes={sorted(set(sizes))})", **keys)
-            if abs(lz - float(lz_ref)) > tol or abs(lz2 - float(lz_ref)) > tol:
+            if abs(lz - float(lz_ref)) > tol_n or abs(lz2 - float(lz_ref)) > tol_n:
                 w.violation(self.prop, "formula.logz", f"logZ({beta})={lz!r} but log mean unnormalised weight={float(lz_ref)!r} (T={T}, N={sum(sizes)})", **keys)
             s1 = float(np.sum(np.exp(lwn)))
-            if abs(s1 - 1.0) > 1e-9:
+            # rounding of the normaliser (a reduction over N) moves every weight by the same factor; rounding of each log-weight by ~eps |logw|
+            if abs(s1 - 1.0) > _tol(batches) + _tol_reduce(lw_ref):
                 w.violation(self.prop, "normalised", f"normalised weights sum to {s1!r} at beta={beta}", **keys)
         # order-independence and shift law on the implementation itself
         beta = bl[-1]
@@ -197,7 +213,8 @@ class WeightsMon(Monitor):
                 lz_exp = lz0
             else:
                 lz_exp = lz0 + beta * c
-            tol = _tol(batches) * 10 + (256 * EPS * abs(c) * 4 if what == "shift" else 0)
+            # two evaluations are compared, each with its own reduction over N (lw_ref: reference at beta = bl[-1], from the loop above)
+            tol = _tol(batches) * 10 + 2 * _tol_reduce(lw_ref) + ((256 * 4 + len(lw_ref)) * EPS * abs(c) if what == "shift" else 0)
             if float(np.max(np.abs(lwn0 - lwn2))) > tol or abs(lz2 - lz_exp) > tol:
                 w.violation(self.prop, f"law.{what}", f"{what}: weights/logZ change under {'permutation of iterations' if what == 'perm' else f'likelihood shift c={c}'} (max|dlogw|={float(np.max(np.abs(lwn0 - lwn2))):.3e}, dlogZ={lz2 - lz_exp:.3e})", **keys)
 
